@@ -72,6 +72,7 @@ type Program struct {
 	astCalls map[*types.Func][]*types.Func // static+interface-expanded callees from AST
 	reach    map[*types.Func]map[*types.Func]bool
 	renames  []string
+	inlined  map[string]string // "pkg|recv|name" of a vanished function -> key of the only caller it had
 }
 
 // skipPkg lists module packages that hold test support code only; they are
@@ -228,6 +229,21 @@ func (p *Program) Func(pkgPath, recv, name string) *FuncDecl {
 		}
 		if RecvTypeName(sig) == recv {
 			return f
+		}
+	}
+	if caller, ok := p.inlined[pkgPath+"|"+recv+"|"+name]; ok {
+		if fd := p.byKey[caller]; fd != nil {
+			note := FuncKeyRaw(pkgPath, recv, name) + " (gone; its only caller on the reference tree is read instead) -> " + caller
+			seen := false
+			for _, r := range p.renames {
+				if r == note {
+					seen = true
+				}
+			}
+			if !seen {
+				p.renames = append(p.renames, note)
+			}
+			return fd
 		}
 	}
 	return nil
